@@ -81,4 +81,13 @@ def suite_codec_refusals(ctx):
     return s
 
 
-SUITES = [suite_enc, suite_types, suite_ddd_widths, suite_codec_refusals]
+def suite_mem_reuse(ctx):
+    """memory-addressed requests incl. MemoryLocation objects used again (re-pointed, after a refusal, under another configuration): a value that does not fit the
+    widths in force is refused and nothing is sent, a value that fits is transmitted untruncated (the C14 memloc suite, run here for its refusal half)"""
+    from . import c14
+    s = c14.suite_memloc(ctx)
+    s.name = 'mem_reuse'
+    return s
+
+
+SUITES = [suite_enc, suite_types, suite_ddd_widths, suite_codec_refusals, suite_mem_reuse]
